@@ -62,13 +62,33 @@ def enc(v, depth=0):
     return {'obj': type(v).__name__}
 
 
+def recase(s, how):
+    if how == 'upper':
+        return s.upper()
+    if how == 'lower':
+        return s.lower()
+    if how == 'swap':
+        return s.swapcase()
+    return s
+
+
 def dec_arg(a, slots):
-    """Decode a JSON argument: {'slot': k} refers to a legacy port object."""
+    """Decode a JSON argument: {'slot': k} refers to a legacy port object,
+    {'ret_of': op id, 'item': k, 'case': how} to (an item of) an earlier op's return value."""
     if isinstance(a, dict):
         if 'slot' in a:
             return slots.get(a['slot'])
         if 'float' in a:
             return float(a['float'])
+        if 'ret_of' in a:
+            r = slots.get(('raw', a['ret_of']))
+            if 'item' in a:
+                if not isinstance(r, (list, tuple)) or not 0 <= a['item'] < len(r):
+                    return None
+                r = r[a['item']]
+            if isinstance(r, str):
+                return recase(r, a.get('case'))
+            return None
     return a
 
 
@@ -129,8 +149,11 @@ def execute(scn, want_events=False):
                         fn = getattr(obj, op['m'])
                         args = [dec_arg(a, slots) for a in op.get('a', [])]
                         kw = {k: dec_arg(v, slots) for k, v in op.get('k', {}).items()}
+                        rec['args_resolved'] = [enc(x) for x in args]
                         try:
-                            rec['ret'] = enc(fn(*args, **kw))
+                            r = fn(*args, **kw)
+                            slots[('raw', op['id'])] = r
+                            rec['ret'] = enc(r)
                         except SimHang:
                             raise
                         except Exception as e:       # the code under test raised
@@ -142,8 +165,10 @@ def execute(scn, want_events=False):
                         fn = getattr(MODULES[mod], fname)
                         args = [dec_arg(a, slots) for a in op.get('a', [])]
                         kw = {k: dec_arg(v, slots) for k, v in op.get('k', {}).items()}
+                        rec['args_resolved'] = [enc(x) for x in args]
                         try:
                             r = fn(*args, **kw)
+                            slots[('raw', op['id'])] = r
                             if 'store' in op:
                                 slots[op['store']] = r if isinstance(r, SimSerial) else None
                             rec['ret'] = enc(r)
